@@ -1,6 +1,7 @@
 import Batteries.Tactic.Alias
 import GenlmModel.Proofs.MemoOps
 import GenlmModel.Proofs.IncCky
+import GenlmModel.Proofs.Earley
 /-! # C05 — incremental parsing is history-independent
 The cache discipline of `Earley.chart` / `IncrementalCKY.chart` (memo table keyed by the prefix,
 computed from the chart of the prefix's prefix) for an ARBITRARY pure column function `ext`. -/
@@ -13,4 +14,5 @@ alias runOps_spec := Genlm.runOps_spec
 /-- instantiated for the CKY column function: the cached chart of a prefix is the chart computed from scratch -/
 alias incremental_cky_memo_transparent := Genlm.incCky_memo_transparent
 alias incremental_cky_chart_is_pure := Genlm.ckyChart_eq_pureChart
+alias earley_memo_transparent := Genlm.earley_memo_transparent
 end Genlm.Props.C05
